@@ -360,6 +360,9 @@ func (e *Engine) findFunc(fc *FuncContract) (*types.Func, error) {
 		}
 		return nil, fmt.Errorf("type %s has no method %s", fc.RecvType, name)
 	}
+	if strings.HasPrefix(name, "init:") {
+		return e.initUnit(e.pkgOfFile(fc.File), strings.TrimPrefix(name, "init:"))
+	}
 	tp := pkg
 	if i := strings.LastIndex(name, "."); i >= 0 {
 		tp = e.lookupPkg(name[:i])
@@ -472,4 +475,47 @@ func (e *Engine) staleCallee(us *UnitSpec) string {
 		}
 	}
 	return ""
+}
+
+// initUnit makes the initializer of a package-level variable a unit of its own: `var x, y = f()` becomes
+// the body `x, y = f()` of a parameterless function named init:x, run like any other function under
+// contract (its postconditions may mention the package variables it initialises).
+func (e *Engine) initUnit(p *packages.Package, name string) (*types.Func, error) {
+	for _, f := range p.Syntax {
+		for _, d := range f.Decls {
+			gd, ok := d.(*ast.GenDecl)
+			if !ok || gd.Tok != token.VAR {
+				continue
+			}
+			for _, sp := range gd.Specs {
+				vs := sp.(*ast.ValueSpec)
+				hit := false
+				for _, n := range vs.Names {
+					hit = hit || n.Name == name
+				}
+				if !hit {
+					continue
+				}
+				if len(vs.Values) == 0 {
+					return nil, fmt.Errorf("package variable %s has no initializer", name)
+				}
+				var lhs []ast.Expr
+				for _, n := range vs.Names {
+					id := &ast.Ident{NamePos: n.NamePos, Name: n.Name}
+					if obj := p.TypesInfo.Defs[n]; obj != nil {
+						p.TypesInfo.Uses[id] = obj
+					}
+					lhs = append(lhs, id)
+				}
+				body := &ast.BlockStmt{Lbrace: vs.Pos(), Rbrace: vs.End(), List: []ast.Stmt{
+					&ast.AssignStmt{Lhs: lhs, TokPos: vs.Pos(), Tok: token.ASSIGN, Rhs: vs.Values}}}
+				fd := &ast.FuncDecl{Name: &ast.Ident{NamePos: vs.Pos(), Name: "init:" + name},
+					Type: &ast.FuncType{Func: vs.Pos(), Params: &ast.FieldList{}}, Body: body}
+				fn := types.NewFunc(vs.Pos(), p.Types, "init:"+name, types.NewSignatureType(nil, nil, nil, nil, nil, false))
+				e.funcs[fn] = &fnInfo{fd, p}
+				return fn, nil
+			}
+		}
+	}
+	return nil, fmt.Errorf("unknown package variable %s", name)
 }
